@@ -93,6 +93,7 @@ pub fn scenarios() -> Vec<(&'static str, fn() -> Option<String>)> {
         ("get-announces-what-it-streams (C10, H11)", sc_get_consistent),
         ("lock-file-is-not-client-addressable (C03, H14)", sc_lock_file_addressable),
         ("committed-content-is-the-streamed-content (C10)", sc_content_shapes),
+        ("hostile-cbor-under-a-memory-limit (C12)", sc_hostile_cbor),
     ]
 }
 
@@ -285,6 +286,42 @@ fn sc_get_consistent() -> Option<String> {
     res
 }
 
+fn sc_hostile_cbor() -> Option<String> {
+    // well-framed (<= 1 MiB) control frames whose CBOR declares huge lengths or nests deeply, to a server with a 512 MiB
+    // address-space limit: it must answer or exit with an error - never be killed, abort, panic or hang
+    use std::os::unix::process::CommandExt;
+    let mut payloads: Vec<(&str, Vec<u8>)> = vec![
+        ("array of 2^64-1 items", { let mut v = vec![0x9b]; v.extend([0xff; 8]); v }),
+        ("map of 2^64-1 pairs", { let mut v = vec![0xbb]; v.extend([0xff; 8]); v }),
+        ("byte string of 2^63 bytes", { let mut v = vec![0x5b, 0x80]; v.extend([0u8; 7]); v }),
+        ("text of 2^32-1 bytes", vec![0x7a, 0xff, 0xff, 0xff, 0xff]),
+        ("1 000 000 nested arrays", vec![0x81; 1_000_000]),
+        ("500 000 indefinite arrays", vec![0x9f; 500_000]),
+        ("500 000 nested tags", vec![0xc1; 500_000]),
+    ];
+    // a Put whose path claims 2^63 bytes
+    let mut v = vec![0xa1, 0x63]; v.extend(b"Put"); v.extend([0xa1, 0x64]); v.extend(b"path"); v.push(0x7b); v.push(0x7f); v.extend([0xff; 7]); payloads.push(("Put with a path of 2^63 bytes", v));
+    let b = std::env::var("COPIA_BIN").ok()?;
+    for (what, pl) in payloads {
+        let r = root("hostile");
+        let mut c = Command::new(&b);
+        c.arg("serve").arg(&r).stdin(Stdio::piped()).stdout(Stdio::null()).stderr(Stdio::null()).env("RUST_BACKTRACE", "0");
+        #[allow(unsafe_code)]
+        unsafe { c.pre_exec(|| { let l = libc::rlimit { rlim_cur: 512 << 20, rlim_max: 512 << 20 }; libc::setrlimit(libc::RLIMIT_AS, &l); Ok(()) }); }
+        let mut child = c.spawn().ok()?;
+        { let mut w = child.stdin.take()?; let _ = w.write_all(MAGIC); let _ = w.write_all(&(pl.len() as u32).to_be_bytes()); let _ = w.write_all(&pl); }
+        let mut code = None;
+        for _ in 0..200 { if let Ok(Some(st)) = child.try_wait() { code = Some(st.code()); break; } std::thread::sleep(Duration::from_millis(50)); }
+        let _ = std::fs::remove_dir_all(&r);
+        match code {
+            None => { let _ = child.kill(); return Some(format!("a {} byte control frame ({what}) makes the server hang after its input was closed (C12)", pl.len())); }
+            Some(None) => return Some(format!("a {} byte control frame ({what}) gets the server killed by a signal (abort / out of memory) under a 512 MiB limit (C12)", pl.len())),
+            Some(Some(c)) if c == 101 || c == 134 => return Some(format!("a {} byte control frame ({what}) makes the server panic (exit {c}) (C12)", pl.len())),
+            _ => {}
+        }
+    }
+    None
+}
 fn sc_content_shapes() -> Option<String> {
     // content shapes a writer might special-case: zero runs at the start, in the middle and at the END, sizes at and around
     // the 256 KiB chunk, empty content. Committed means: the live bytes ARE the streamed bytes, and Get says so.
